@@ -324,6 +324,13 @@ def main(tier, seed, budget):
                     a = base_args(cfg_by[sweep_key[:2]], 1, base.run_seed(seed, 600000 + L * 10 + occ))
                     a['plan'] = {'0': {'*': ['line', L, occ]}}
                     lj.append(dict(fn=JOB, args=a, timeout=600))
+                # the same slow statement on every rank of a 2- and a 3-rank world (stale maps must then be repaired
+                # by check_results across its shuffled, scattered slices)
+                for P in (2, 3):
+                    if (sweep_key[0], sweep_key[1], P) in profiles:
+                        a = base_args(cfg_by[sweep_key[:2]], P, base.run_seed(seed, 600000 + L * 10 + 5 + P))
+                        a['plan'] = {str(r): {'*': ['line', L, 1]} for r in range(P)}
+                        lj.append(dict(fn=JOB, args=a, timeout=600))
             n0 = stats['worlds']
             for job, out in pool.imap(lj, timeout=600):
                 handle(job, out, pending_min)
